@@ -527,6 +527,24 @@ var gotmpls = []gotmpl{
 			return b.String()
 		}}
 	}},
+	{"elements-seq-taken-before-freeze", "goiter", "list", func(sp *worldSpec, r *rand.Rand, x int) *op {
+		stop := r.Intn(8)
+		return &op{desc: fmt.Sprint("stop=", stop), run: func(e *env) string {
+			seq := e.w.preSeqs[x]
+			if seq == nil {
+				return "no-seq"
+			}
+			var b strings.Builder
+			i := 0
+			seq(func(v starlark.Value) bool {
+				b.WriteString(cv(v))
+				b.WriteByte(';')
+				i++
+				return i != stop
+			})
+			return b.String()
+		}}
+	}},
 	{"entries", "goiter", "dict", func(sp *worldSpec, r *rand.Rand, x int) *op {
 		stop := r.Intn(8)
 		return &op{desc: fmt.Sprint("stop=", stop), run: func(e *env) string {
